@@ -149,6 +149,39 @@ def simprop(gen, owns, required, spec="Trace_Rtps", keep_sleep=False, mc=RTPS_MC
     }
 
 
+def graphprop(module, mc, cfgs, tags, note):
+    cf = {"quick": cfgs, "thorough": cfgs}
+    return {
+        "run": lambda p, tier, seed: graph_run(p, tier, seed, module, mc, cf, tags, note),
+        "replay": lambda p, path: graph_replay(p, path, module),
+    }
+
+
+def combine(*handlers):
+    """several machineries for one property: run all, merge verdicts; coverage of the first, the others nested"""
+    def run(p, tier, seed):
+        results = [h["run"](p, tier, seed) for h in handlers]
+        out = results[0]
+        for k, r in enumerate(results[1:], start=2):
+            out["violations"] += r["violations"]
+            out["known"] += r["known"]
+            out["assumptions"] += [a for a in r["assumptions"] if a not in out["assumptions"]]
+            cov = r["coverage"]
+            out["coverage"][f"part{k}"] = {x: cov[x] for x in cov if x != "samples"}
+            out["coverage"]["states"] = out["coverage"].get("states", 0) + cov.get("states", 0)
+            out["coverage"]["transitions"] = out["coverage"].get("transitions", 0) + cov.get("transitions", 0)
+            out["coverage"]["traces_validated_against_impl"] = out["coverage"].get("traces_validated_against_impl", 0) + cov.get("traces_validated_against_impl", 0)
+            out["coverage"]["samples"] = out["coverage"].get("samples", []) + cov.get("samples", [])[:2]
+        return out
+
+    def replay(p, path):
+        rep = json.load(open(path))
+        if "scenario" in rep:
+            return handlers[1]["replay"](p, path)
+        return handlers[0]["replay"](p, path)
+    return {"run": run, "replay": replay}
+
+
 def C(*names):
     return [f"MC_ReaderCache_{n}.cfg" for n in names]
 
@@ -168,6 +201,14 @@ PROPS = {
     "C30": simprop(scenarios.c30, ["C30"], {"listener": 20, "offered": 10, "offeredmiss": 5, "requestedmiss": 10, "final": 30},
                    spec="Trace_Worker", mc=None, norm=tracenorm.normalise_worker),
     "C31": simprop(scenarios.c31, ["C31"], {"sleep": 2000}, spec="Trace_Worker", mc=None, norm=tracenorm.normalise_worker, keep_sleep=True),
+    "C34": graphprop("Channels", "Channels", ["MC_Channels_oneshot.cfg", "MC_Channels_mpsc.cfg", "MC_Channels_notification.cfg"],
+                     ["poll:value", "poll:pending", "poll:disconnected", "drop:last-sender"],
+                     "channels driven through the cfg(dust_dds_verif) re-export; every operation of the code is one critical section"),
+    "C32": combine(graphprop("StatusWait", "StatusWait", ["MC_StatusWait.cfg"],
+                             ["setenabled:releases-registered-waiter", "await:released", "await:waiting", "register"],
+                             "DcpsStatusCondition driven through the cfg(dust_dds_verif) re-export with real notification channels"),
+                   simprop(scenarios.c32, ["C32"], {"waits": 20, "waitwoken": 10}, spec="Trace_Worker", mc=None,
+                           norm=tracenorm.normalise_worker)),
     "C18": rc("C18", {"quick": C("C18", "C18b", "C18c", "C18d"), "thorough": C("C18", "C18b", "C18c", "C18d")},
               ["history:keep-last-replaces-oldest"]),
     "C19": rc("C19", {"quick": C("C19", "C19b", "C19c"), "thorough": C("C19", "C19b", "C19c")}, ["limits:rejected"]),
@@ -354,3 +395,96 @@ def c15_replay(prop, path):
 
 
 PROPS["C15"] = {"run": c15_run, "replay": c15_replay}
+
+
+# ------------------------------------------------------------------------------------------
+# C33: listener dispatch, StatusWait/MC_Dispatch enumerated by TLC, each configuration raised in the simulation
+# ------------------------------------------------------------------------------------------
+def c33_run(prop, tier, seed):
+    wd = vlib.workdir(prop)
+    known = vlib.load_known()
+    r1, cases = _cases_from_tlc("MC_Dispatch", "MC_Dispatch.cfg", wd)
+    if len(cases) < 60:
+        raise ToolError("vacuity guard: too few dispatch configurations")
+    scen = []
+    for k, c in enumerate(cases):
+        cc = c["c"]
+        scen.append({"name": f"C33-{k}", "family": "dispatch", "seed": seed, "frag": 1344, "case": c,
+                     "steps": [{"do": "dispatch_case", "status": cc["k"], "em": cc["em"], "gm": cc["gm"], "pm": cc["pm"], "dor": cc["dor"], "id": k}]})
+    runs = simcheck.run_sim_batch(scen, wd, "c33", jobs=4)
+    violations, known_hits = [], []
+    checked = nontrivial = 0
+
+    def report(sig, what, content):
+        kf = next((k for k in known["findings"] if sig.startswith(k["signature"])), None)
+        if kf:
+            if not any(h["sig"] == sig for h in known_hits):
+                known_hits.append({"sig": sig, "what": f"{kf['what']} [{sig}]"})
+            return
+        if any(v["sig"] == sig for v in violations):
+            return
+        path = vlib.save_replay(prop, re.sub(r"[^A-Za-z0-9_.-]", "_", sig)[:140], content)
+        violations.append({"sig": sig, "what": what, "replay": path})
+
+    for sc, run in zip(scen, runs):
+        c = sc["case"]
+        evs = run or []
+        if any(e["ev"] == "SimError" for e in evs):
+            report("Dispatch:simulation-error", f"simulation error in {c}", {"property": prop, "scenario": sc})
+            continue
+        if any(e["ev"] == "DispatchSkip" for e in evs):
+            continue
+        k = c["c"]["k"]
+        want_level, want_kind = c["to"]["level"], c["to"]["kind"]
+        relevant = {k, "DataOnReaders"} if k == "DataAvailable" else {k}
+        calls = [(e["level"], e["kind"]) for e in evs if e["ev"] == "Listener" and e["kind"] in relevant]
+        checked += 1
+        if want_level != "none":
+            nontrivial += 1
+        wrong = [x for x in calls if x != (want_level, want_kind)]
+        right = [x for x in calls if x == (want_level, want_kind)]
+        base = f"Dispatch:{k}:{'dor' if c['c']['dor'] else 'mask'}"
+        if wrong:
+            report(f"{base}:delivered-to-wrong-listener:{wrong[0][0]}",
+                   f"{k} masks em={c['c']['em']} gm={c['c']['gm']} pm={c['c']['pm']} dor={c['c']['dor']}: expected {want_level}/{want_kind}, also delivered to {sorted(set(wrong))}",
+                   {"property": prop, "scenario": sc, "calls": calls})
+        if want_level != "none" and not right:
+            report(f"{base}:not-delivered-to:{want_level}",
+                   f"{k}: expected a callback at {want_level}/{want_kind}, got {calls}", {"property": prop, "scenario": sc, "calls": calls})
+        expected_once = k in ("SubscriptionMatched", "PublicationMatched", "DataAvailable", "SampleRejected",
+                              "RequestedIncompatibleQos", "OfferedIncompatibleQos")
+        if expected_once and len(right) > 1:
+            report(f"{base}:delivered-more-than-once-per-change:{want_level}",
+                   f"{k}: one status change but {len(right)} callbacks at {want_level}", {"property": prop, "scenario": sc, "calls": calls})
+    if checked < len(cases) * 0.9:
+        raise ToolError(f"only {checked} of {len(cases)} dispatch configurations were exercised")
+    coverage = {"states": r1["stats"]["distinct"], "transitions": len(cases), "traces_validated_against_impl": checked,
+                "evaluations": checked, "distinct_nontrivial": nontrivial, "exhaustive": True,
+                "rule": "one case = one (status kind, reader/writer mask, subscriber/publisher mask, participant mask, DATA_ON_READERS) "
+                        "configuration of MC_Dispatch.tla, raised by a real event in the simulation with recording listeners at all "
+                        "three levels; non-trivial = configurations in which some listener must be called",
+                "checker_cmd": r1["stats"]["cmd"], "samples": cases[:2] + cases[-1:]}
+    return {"level": "model_checking", "coverage": coverage, "violations": violations, "known": known_hits,
+            "assumptions": ["recording listeners log every callback; statuses are raised by real events (match, data, deadline, "
+                            "rejection, incompatible QoS)", "a listener object is installed wherever a mask is non-empty"]}
+
+
+def c33_replay(prop, path):
+    rep = json.load(open(path))
+    wd = vlib.workdir(prop + ".replay")
+    sc = rep["scenario"]
+    runs = simcheck.run_sim_batch([sc], wd, "r", jobs=1)
+    c = sc["case"]
+    k = c["c"]["k"]
+    relevant = {k, "DataOnReaders"} if k == "DataAvailable" else {k}
+    calls = [(e["level"], e["kind"]) for e in (runs[0] or []) if e["ev"] == "Listener" and e["kind"] in relevant]
+    print(json.dumps({"expected": c["to"], "calls": calls}))
+    want = (c["to"]["level"], c["to"]["kind"])
+    bad = [x for x in calls if x != want] or (want[0] != "none" and not calls) or (len(calls) > 1 and k not in ("RequestedDeadlineMissed", "OfferedDeadlineMissed"))
+    if bad:
+        print(f"VIOLATION property={prop} replay={path}")
+        return 1
+    return 0
+
+
+PROPS["C33"] = {"run": c33_run, "replay": c33_replay}
